@@ -1,7 +1,7 @@
 #!/bin/sh
 # tools/mutant.sh <patch> <prop>... : apply a seeded change to /repo, run the quick checks, undo.
 cd "$(dirname "$0")/.."
-patch=$1; shift
+patch=$(readlink -f "$1"); shift
 git -C /repo apply "$patch" || { echo "patch does not apply"; exit 2; }
 for p in "$@"; do
   timeout 600 ./check $p quick 2>&1 | grep -E "VIOLATION|quick:" | cut -c1-200
